@@ -129,8 +129,13 @@ def observe_object(flav, net, opts, tid, rng, mode="iterate", order=None, forced
         recs.append({"ev": "iter", "tid": tid, "n": state["n"] + 1, "exc": type(ex).__name__, "exact": []})
         return recs
 
+    # damping together with local convergence (flavours with a touched set): known finding KF-C14-4;
+    # only the exactness of the messages is recorded for those runs
+    lcdamp = damped and bool(opts.get("lc", True)) and flav in ("D1BP", "D2BP", "L1BP", "L2BP")
+    if lcdamp:
+        want = ()
     end = {"ev": "end", "tid": tid, "exc": "", "converged": conv, "iterations": its, "flav": flav,
-           "kind": net.kind, "damped": damped}
+           "kind": net.kind, "damped": damped, "lcdamp": lcdamp}
     end["exact"], _ = U.exact_pairs(flav, bp, net, refmsgs, U.END_TOL if damped else etol)
     snap = net.exact and not damped
     real = net.kind in ("pos", "signed")
@@ -306,7 +311,7 @@ def rand_opts(r, flav, damped_ok=True):
     elif r.random() < 0.25:
         o["contract"] = "strip"
     if damped_ok and r.random() < 0.15:
-        o["damping"] = r.choice([0.3, 0.5])
+        o["damping"] = r.choice([0.3, 0.6])      # not 0.5: old = -new (signed data) would give a zero message
     if r.random() < 0.2 and flav != "HV1BP":
         o["normalize"] = r.choice(["L1", "L2", "Linf"])
     return o
@@ -334,6 +339,8 @@ def object_traces(seed, n, tid0, sizes):
             kw["shape"] = r.choice(["random", "chain", "star"])
         net = gen_net(rng, flav, kind, size, **kw)
         opts = rand_opts(r, flav)
+        if flav == "HV1BP" and kind == "signed" and opts["init"] == "dense":
+            opts["init"] = "default"     # initialize_hyper_messages divides by message entries (zero for integers)
         order = list(range(len(net.tensors)))
         r.shuffle(order)
         recs += observe_object(flav, net, opts, tid0 + k, rng, mode=r.choice(["iterate", "run"]), order=order)
@@ -376,9 +383,11 @@ def entry_records(seed, n, tid0, sizes):
             call["site_tags"] = U.site_tags(net)
         damped = r.random() < 0.15
         if damped:
-            call["damping"] = r.choice([0.3, 0.5])
+            call["damping"] = r.choice([0.3, 0.6])
             call["tol"] = 1e-10
             call["max_iterations"] = 3000
+            if "local_convergence" in call:
+                call["local_convergence"] = False      # damping + local convergence: KF-C14-4 (object traces)
         strip = r.random() < 0.3
         if strip:
             call["strip_exponent"] = True
@@ -585,12 +594,21 @@ def replay_behaviours(behs, seed, tid0):
             flav = keyflavs[k % 3]
         if flav == "L2BP" and o["init"] == "custom":
             flav = "D2BP"
+        if n >= 6 and flav in ("D2BP", "L2BP"):
+            flav = "L1BP"        # keeps the squared network small enough for TLC's recomputation
         gk, norm = U.FLAVS[flav]
         # the model's tree with random positive integer data
-        for _ in range(100):
-            net = _net_from_tree(rng, n, edges, norm, gk)
-            if U.fits(net, norm) and not U.Ref(net, norm).degenerate():
+        net = None
+        for hi in (4, 3):
+            for _ in range(50):
+                cand = _net_from_tree(rng, n, edges, norm, gk, hi)
+                if U.fits(cand, norm) and not U.Ref(cand, norm).degenerate():
+                    net = cand
+                    break
+            if net is not None:
                 break
+        if net is None:
+            continue
         opts = {"update": "sequential" if o["mode"] == "seq" else "parallel", "lc": bool(o["lc"]),
                 "init": o["init"], "damping": 0.0}
         hist = b["hist"]
@@ -611,7 +629,7 @@ def replay_behaviours(behs, seed, tid0):
     return recs, ntr
 
 
-def _net_from_tree(rng, n, edges, norm, gk):
+def _net_from_tree(rng, n, edges, norm, gk, hi=4):
     inds = {i: [] for i in range(1, n + 1)}
     for k, (a, b) in enumerate(edges):
         inds[a].append("b%d" % k)
@@ -622,7 +640,7 @@ def _net_from_tree(rng, n, edges, norm, gk):
         if norm == 2:
             ix.append("k%d" % i)
             ph.append("k%d" % i)
-        ts.append((ix, rng.integers(1, 4, size=[2] * len(ix)).astype(float)))
+        ts.append((ix, rng.integers(1, hi, size=[2] * len(ix)).astype(float)))
     name = ["t%d" % i if gk == "dense" else "S%d" % (i - 1) for i in range(1, n + 1)]
     return U.Net(ts, name, gk, "pos", ph)
 
@@ -636,48 +654,73 @@ ACTIONS = ("BeginIter", "UpdateSequentialA", "UpdateParallel", "EndIter", "Local
 def run(ctx):
     from ..ctx import MachineryError
 
+    import os
+    import sys
+    import time
+
     quick = ctx.tier == "quick"
     seed = ctx.seed
+    t0 = time.time()
+
+    def lap(what):
+        if os.environ.get("QV_C14_TIMING"):
+            sys.stderr.write("[c14] %-28s %6.1fs\n" % (what, time.time() - t0))
 
     # 1. TLC: the scheduling model implies the property-level invariants for every tree / pop order
     ctx.model_check("MC_C14", "MC_quick.cfg" if quick else "MC_thorough.cfg", name="bp-schedules",
                     require_actions=ACTIONS, timeout=1500)
-    for cfg, inv, what in (("MC_bug_marksrc.cfg", None, "a changed message marks its sender instead of its receiver"),
-                           ("MC_bug_noretouch.cfg", None, "an empty touched set is not refilled")):
+    selftests = [("MC_damped.cfg", "ConvergedExact", "KF-C14-4: damping with local convergence, run() reports convergence with a message part of the way")]
+    if not quick:
+        selftests += [("MC_bug_marksrc.cfg", None, "a changed message marks its sender instead of its receiver"),
+                      ("MC_bug_noretouch.cfg", None, "an empty touched set is not refilled")]
+    for cfg, inv, what in selftests:
         rr = T.run_tlc("MC_C14", cfg, ctx.spec_dir, workers=4, allow_violation=True, scratch=ctx.scratch, timeout=300)
-        if not rr.violated:
-            raise MachineryError("model self-test %s: expected a violated invariant" % cfg)
+        if not rr.violated or (inv and rr.violated != inv):
+            raise MachineryError("model self-test %s: expected a violated invariant %s, got %s" % (cfg, inv or "", rr.violated))
         ctx.extra.setdefault("model_selftests", []).append("%s: TLC finds a counterexample to %s (%s)" % (cfg, rr.violated, what))
+    # the smallest repair of KF-C14-4 (a moved damped message is re-marked itself) satisfies the invariants
+    ctx.model_check("MC_C14", "MC_damped_repaired_quick.cfg" if quick else "MC_damped_repaired.cfg", name="damping-repaired",
+                    require_actions=("UpdateSequentialA", "UpdateParallel", "LocalConvergenceSkip", "HyperIterate"), timeout=900)
     ctx.model_check("MC_C14Exact", "MC_exact_quick.cfg" if quick else "MC_exact_thorough.cfg", name="reference-definitions",
-                    require_actions=("Check",), timeout=900)
+                    require_actions=("Check",), timeout=1500)
+    if not quick:
+        ctx.model_check("MC_C14Exact", "MC_exact_signed.cfg", name="reference-definitions-signed",
+                        require_actions=("Check",), timeout=1500)
 
+    lap("model checking")
     sizes = {"n1": [2, 3, 4, 5, 6], "n2": [2, 3, 4], "float": [4, 7, 10, 16, 24]}
     fails = []
 
     # 2. S->C: simulated behaviours of the model replayed into quimb
-    nsim = 60 if quick else 600
+    nsim = 40 if quick else 600
     res = T.run_tlc("MC_C14", "MC_sim.cfg", ctx.spec_dir, workers=1, coverage=False, simulate="num=%d" % nsim,
                     depth=200, seed=5 + seed, scratch=ctx.scratch, timeout=900)
     behs = [b for b in T.parse_printed_json(res.output) if isinstance(b, dict) and "hist" in b]
     if len(behs) < nsim // 3:
         raise MachineryError("could not read the simulated behaviours back (%d of %d)" % (len(behs), nsim))
+    lap("simulation")
     rrecs, nrep = replay_behaviours(behs, seed, 500000)
+    lap("replay driving")
     ctx.sample({"replayed_behaviour": {"opt": behs[0]["opt"], "edges": behs[0]["edges"],
                                        "pops": [h["pops"] for h in behs[0]["hist"]]}})
     fails += ctx.validate("C14_Trace", "Trace.cfg", rrecs, name="replay", ntraces=nrep)
     ctx.extra["replayed_behaviours"] = nrep
 
+    lap("replay")
     # 3. C->S: BP objects stepped through iterate() / run(callback)
     nobj = 96 if quick else 1500
     orecs, ntr = object_traces(seed * 7919 + 1, nobj, 100000, sizes)
+    lap("objects driving")
     ctx.sample({"object_trace": [{k: v for k, v in r.items() if k not in ("net", "msgs", "graph")} for r in orecs[:3]]})
     fails += ctx.validate("C14_Trace", "Trace.cfg", orecs, name="objects", ntraces=ntr)
 
+    lap("objects")
     # 4. functional entry points, gauging / compression, sampling, schedule groups
     erecs = entry_records(seed * 7919 + 2, 90 if quick else 1200, 200000, sizes)
     grecs = gauge_records(seed * 7919 + 3, 40 if quick else 480, 300000, sizes)
     srecs = sample_records(seed * 7919 + 4, 24 if quick else 240, 400000)
     qrecs = group_records(seed * 7919 + 5, 12 if quick else 120, 450000, sizes)
+    lap("entry points driving")
     ctx.sample({"entry": {k: v for k, v in erecs[0].items() if k != "net"}})
     fails += ctx.validate("C14_Trace", "Trace.cfg", erecs + grecs + srecs + qrecs, name="entry-points",
                           ntraces=len(erecs) + len(grecs) + len(srecs) + len(qrecs))
@@ -696,6 +739,7 @@ def run(ctx):
         "with damping > 0 exactness is checked after convergence only (tol 1e-10), values to 1e-6",
         "entry points called with the default tol=5e-6 are compared to 1e-4; with tol=1e-12 they are snapped to integers",
     ]
+    lap("entry points")
     notes = [f for f in fails if f["clause"].startswith("NOTE:")]
     for f in fails:
         rec = f["record"]
